@@ -1,5 +1,5 @@
 (* C16 - property theorems only. *)
-From HV Require Import Prelude PearsonQ C16_Model C16_Check C16_Proofs C16_ProofsPerm.
+From HV Require Import Prelude PearsonQ C16_Model C16_Check C16_Proofs C16_ProofsPerm C16_ProofsEmpty C16_ModelBatch C16_ProofsBatch.
 From Coq Require Import QArith Permutation.
 Open Scope Z_scope.
 
@@ -60,7 +60,8 @@ Proof. exact variant_target_listed. Qed.
 Print Assumptions C16_ld_variant_target_listed.
 
 (* no mode raises: biallelic phased calls without missing values for the kept samples,
-   a .hap set whose alleles exist in the genotypes, a target that is a haplotype or a variant *)
+   a .hap set whose alleles exist in the genotypes (a haplotype may have no V line at all),
+   a target that is a haplotype or a variant *)
 Theorem C16_ld_modes_total :
   forall target gs lines keep ids fg,
   inputs_ok target gs lines keep = true ->
@@ -81,16 +82,18 @@ Theorem C16_r_near_sound :
 Proof. exact r_near_sound. Qed.
 Print Assumptions C16_r_near_sound.
 
+(* [skipped c id]: the switch STRICT_EMPTY_HAPLOTYPE is off and [id] is a haplotype without V lines (runs
+   with such a TARGET are not looked at then); with the switch on it is [false] for every id *)
 Theorem C16_holds_ld_sound :
   forall c rows td,
-  wf c = true -> l_obs c = Ok rows ->
+  wf c = true -> skipped c (l_target c) = false -> l_obs c = Ok rows ->
   dosage_of c (negb (target_is_hap c)) (l_target c) = Some td ->
   holds_ld c = true ->
   (forall r, In r rows -> exists d, dosage_of c (l_fg c) (fst r) = Some d /\ r_near_spec (snd r) (corr td d))
   /\ (forall id, In id (requested c) -> countZ id (map fst rows) = 1)
   /\ (target_is_hap c = true -> ~ In (l_target c) (map fst rows))
   (* LD(A,B) = LD(B,A): the R printed for the target in the run whose target is the listed item b *)
-  /\ (forall b r, In (b, Ok r) (l_sym c) ->
+  /\ (forall b r, In (b, Ok r) (l_sym c) -> skipped c b = false ->
         exists d, dosage_of c (l_fg c) b = Some d /\ r_near_spec r (corr d td) /\ r_near_spec r (corr td d)).
 Proof. exact holds_ld_sound. Qed.
 Print Assumptions C16_holds_ld_sound.
@@ -252,3 +255,150 @@ Proof.
   - apply perm_swap.
 Qed.
 Print Assumptions C16_hline_perm_example.
+
+(* ---- haplotypes without V lines -------------------------------------------------------------------- *)
+
+(* the dosage of a haplotype without V lines is 2 for every kept sample ... *)
+Theorem C16_hap_dosage_no_vlines :
+  forall gs keep h, h_vars h = [] -> hap_dosage gs keep h = Ok (map (fun _ => 2) (kept keep)).
+Proof. exact hap_dosage_no_vlines. Qed.
+Print Assumptions C16_hap_dosage_no_vlines.
+
+(* ... in the declarative reading of C16_hap_dosage_counts_carrying_strands: every strand carries all of
+   its (no) alleles *)
+Theorem C16_strand_carries_no_alleles :
+  forall gs keep i st, strand_carries gs keep [] i st.
+Proof. exact strand_carries_nil. Qed.
+Print Assumptions C16_strand_carries_no_alleles.
+
+(* NaN when one of the two dosage vectors is constant (the direction of C16_pearson_nan_iff_constant used
+   below, for any constant and any length) *)
+Theorem C16_pearson_constant_nan :
+  forall t d c, (forall x, In x d -> x = c) -> corr t d = None /\ corr d t = None.
+Proof. exact corr_constant_both. Qed.
+Print Assumptions C16_pearson_constant_nan.
+
+(* Every R that involves a haplotype without V lines is NaN, in every mode: all the rows when it is the
+   target, its own row when it is listed. *)
+Theorem C16_ld_no_vlines_nan :
+  forall target gs lines keep ids fg rows,
+  NoDup (hap_ids lines) -> NoDup (var_ids gs) ->
+  calc_ld false target gs lines keep ids fg = Ok rows ->
+  (no_vlines lines target -> forall r, In r rows -> snd r = None)
+  /\ (fg = false -> forall b r, In (b, r) rows -> no_vlines lines b -> r = None).
+Proof. exact ld_no_vlines_nan. Qed.
+Print Assumptions C16_ld_no_vlines_nan.
+
+(* content, and satisfiability of C16_ld_modes_total's precondition with such haplotypes: haplotypes
+   without V lines first (7), in the middle (8) and last (9) in the .hap file; as the target in both output
+   modes; listed with a variant target *)
+Example C16_no_vlines_example :
+  let gs := [mkgv 10 0 1 [(0,1); (1,1); (0,0); (1,0)] []; mkgv 11 0 1 [(0,0); (1,1); (0,1); (0,0)] []] in
+  let lines := [HL (mkhap 7 []); HL (mkhap 1 [(10, 1); (11, 1)]); HL (mkhap 8 []); RL 2; HL (mkhap 3 [(11, 0)]); HL (mkhap 9 [])] in
+  let keep := [true; true; false; true] in
+  inputs_ok 7 gs lines keep = true /\ inputs_ok 10 gs lines keep = true
+  /\ calc_ld false 8 gs lines keep None false = Ok [(7, None); (1, None); (3, None); (9, None)]
+  /\ calc_ld false 8 gs lines keep None true = Ok [(10, None); (11, None)]
+  /\ option_map (map (fun r : row => (fst r, match snd r with None => true | Some _ => false end)))
+                (match calc_ld false 10 gs lines keep None false with Ok r => Some r | Err _ => None end)
+     = Some [(7, true); (1, false); (8, true); (3, false); (9, true)].
+Proof. exact inputs_ok_empty_example. Qed.
+Print Assumptions C16_no_vlines_example.
+
+(* The tree before fixes/C16_empty_haplotype.patch ([calc_ld_sw false]: Haplotype.transform raises
+   ValueError for a haplotype without V lines) is the repaired model for every other target ... *)
+Theorem C16_pinned_differs_only_for_empty_target :
+  forall vcf target gs lines keep ids fg,
+  ~ no_vlines lines target ->
+  calc_ld_sw false vcf target gs lines keep ids fg = calc_ld false target gs lines keep ids fg.
+Proof. exact pinned_differs_only_for_empty_target. Qed.
+Print Assumptions C16_pinned_differs_only_for_empty_target.
+
+(* ... and for such a target it never lists anything *)
+Theorem C16_pinned_empty_target_lists_nothing :
+  forall vcf target gs lines keep ids fg rows,
+  no_vlines lines target ->
+  calc_ld_sw false vcf target gs lines keep ids fg = Ok rows -> rows = [].
+Proof. exact pinned_empty_target_lists_nothing. Qed.
+Print Assumptions C16_pinned_empty_target_lists_nothing.
+
+(* ... which violates the property: target = a haplotype without V lines, another haplotype to list *)
+Example C16_pinned_empty_target_refuted :
+  wf (witness16_empty true (Err E_Value)) = true
+  /\ model_ld (witness16_empty false (Err E_Value)) = Err E_Value
+  /\ holds_ld (witness16_empty true (Err E_Value)) = false
+  /\ model_ld (witness16_empty true (Err E_Value)) = Ok [(6, None)]
+  /\ holds_ld (witness16_empty true (Ok [(6, None)])) = true
+  /\ holds_ld (witness16_empty false (Err E_Value)) = true.
+Proof. exact pinned_empty_target_refuted. Qed.
+Print Assumptions C16_pinned_empty_target_refuted.
+
+(* what a pass of the checker says about them: a listed haplotype without V lines was printed as nan, and
+   when the target is one every R was printed as nan *)
+Theorem C16_holds_ld_no_vlines :
+  forall c rows,
+  wf c = true -> skipped c (l_target c) = false -> l_obs c = Ok rows -> holds_ld c = true ->
+  (l_fg c = false -> forall b p, In (b, p) rows -> is_empty_hap c b = true -> p = None)
+  /\ (is_empty_hap c (l_target c) = true -> forall b p, In (b, p) rows -> p = None).
+Proof. exact holds_ld_no_vlines. Qed.
+Print Assumptions C16_holds_ld_no_vlines.
+
+(* LD(A,B) = LD(B,A) on what the implementation printed in two runs: when the checker passes, the R printed
+   for B with target A and the R printed for A with target B render one exact number, the correlation of
+   the two dosages (so they differ by at most 2 * (0.0005 + 1e-9)), and one is nan iff the other is *)
+Theorem C16_holds_ld_two_runs :
+  forall c rows td b p r,
+  wf c = true -> skipped c (l_target c) = false -> l_obs c = Ok rows ->
+  dosage_of c (negb (target_is_hap c)) (l_target c) = Some td ->
+  holds_ld c = true ->
+  In (b, p) rows -> In (b, Ok r) (l_sym c) -> skipped c b = false ->
+  exists d, dosage_of c (l_fg c) b = Some d
+            /\ r_near_spec p (corr td d) /\ r_near_spec r (corr td d)
+            /\ (p = None <-> r = None).
+Proof. exact holds_ld_two_runs. Qed.
+Print Assumptions C16_holds_ld_two_runs.
+
+(* ---- the mechanism inside Haplotypes.transform ------------------------------------------------------ *)
+
+(* [batch_transform] (C16_ModelBatch.v) transcribes Haplotypes.transform: the dictionary of (variant, allele)
+   pairs in order of first appearance, one column per pair requested from Genotypes.subset() IN THAT ORDER,
+   the allele looked up in the record at the same POSITION, the AND of each haplotype's columns.  For every
+   set of haplotypes whose variants are among the loaded records - V lines in any order, variants shared
+   between haplotypes or used with both alleles, haplotypes without V lines - it is the per-haplotype
+   conjunction that [hap_dosage] sums, the ValueError for an allele that is not in the record included. *)
+Theorem C16_batch_transform_refines :
+  forall gs keep hs,
+  (forall h va, In h hs -> In va (h_vars h) -> find_var (fst va) gs <> None) ->
+  batch_transform gs keep hs
+  = map_res (fun h => hap_strands gs keep (h_vars h)
+                        (map (fun _ : bool => (true, true)) (filter (fun k : bool => k) keep))) hs.
+Proof. exact batch_transform_refines. Qed.
+Print Assumptions C16_batch_transform_refines.
+
+(* the (ID, dosage) list calc_ld correlates with the target is the batch transform's strand sums *)
+Theorem C16_batch_transform_dosages :
+  forall gs keep hs,
+  (forall h va, In h hs -> In va (h_vars h) -> find_var (fst va) gs <> None) ->
+  map_res (fun h => bind (hap_dosage gs keep h) (fun d => Ok (h_id h, d))) hs
+  = bind (batch_transform gs keep hs)
+         (fun cols => Ok (map (fun hc : hap * list (bool * bool) =>
+                                 (h_id (fst hc), map (fun s : bool * bool => b2z (fst s) + b2z (snd s)) (snd hc)))
+                              (combine hs cols))).
+Proof. exact batch_transform_dosages. Qed.
+Print Assumptions C16_batch_transform_dosages.
+
+(* the order of subset()'s result matters: with a subset() that leaves the records in file order when as many
+   are requested as are loaded, two haplotypes listed in the other order than their (A>G) variants receive
+   each other's column, silently *)
+Example C16_subset_order_shortcut_refuted :
+  let gs := [mkgv 1 0 1 [(0,1); (1,1); (0,0); (1,0)] []; mkgv 2 0 1 [(0,0); (1,1); (0,1); (0,0)] []] in
+  let hs := [mkhap 10 [(2, 1)]; mkhap 11 [(1, 1)]] in
+  let keep := [true; true; true; true] in
+  batch_transform gs keep hs
+  = Ok [[(false, false); (true, true); (false, true); (false, false)];
+        [(false, true); (true, true); (false, false); (true, false)]]
+  /\ batch_transform_shortcut gs keep hs
+     = Ok [[(false, true); (true, true); (false, false); (true, false)];
+           [(false, false); (true, true); (false, true); (false, false)]].
+Proof. exact shortcut_refuted. Qed.
+Print Assumptions C16_subset_order_shortcut_refuted.
